@@ -1,1 +1,654 @@
-fn main() { eprintln!("engine not built yet"); std::process::exit(2); }
+//! C20 — rec_lambda closures equal explicit recursion for every supported macro shape.
+//! Form I over PROGRAMS: the engine generates Rust source for every macro shape (captures = every
+//! sequence of length 0..=4 over {&, &mut}, 1..=4 arguments, return type present/absent, recursive calls
+//! with/without trailing comma, body templates), compiles the batch against the REAL macro with cargo,
+//! runs the produced binary and compares, per shape and per argument tuple, the return values and the
+//! final state of every capture of the macro version with the hand-written recursive `fn` that takes the
+//! captures explicitly and has the same body text.
+//!
+//! A shape that does not expand/compile is a violation (family `compile`), a shape whose results differ
+//! (or whose macro version panics / kills the process while the hand version does not) is a violation
+//! (family `behaviour`).  If rlib_lambda itself does not build, that is a machinery failure, not a verdict.
+
+mod gen;
+
+use gen::{Shape, Tuple};
+use rayon::prelude::*;
+use std::collections::{BTreeMap, BTreeSet};
+use std::io::Read;
+use std::path::{Path, PathBuf};
+use std::process::{Command, Stdio};
+use vcore::*;
+
+/// Path of the crate under test as written in this engine's Cargo.toml (see build.rs).
+const CRATE_PATH: &str = env!("RLIB_LAMBDA_PATH");
+
+fn machinery(msg: &str) -> ! {
+    println!("MACHINERY-FAILURE property=C20 engine=lambda {msg}");
+    eprintln!("MACHINERY-FAILURE property=C20 engine=lambda {msg}");
+    std::process::exit(2)
+}
+
+/// Phase timings on stderr when VERIF_LAMBDA_TIMING is set (diagnostic only, never part of a verdict).
+fn phase(name: &str, t: std::time::Instant) {
+    if std::env::var_os("VERIF_LAMBDA_TIMING").is_some() {
+        eprintln!("[timing] {name}: {:.1}s", t.elapsed().as_secs_f64());
+    }
+}
+
+fn gen_root() -> PathBuf {
+    vcore::run::verif_root().join("harness/target/lambda_gen")
+}
+
+struct Pkg {
+    dir: PathBuf,
+    name: String,
+}
+
+struct BuildErr {
+    /// the rustc `message` objects of level error
+    errors: Vec<Value>,
+    /// their human-readable renderings, concatenated
+    rendered: String,
+    /// some error belongs to another crate than the generated one (i.e. to rlib_lambda itself)
+    foreign: bool,
+}
+
+/// Line of src/main.rs that a diagnostic span leads to, following the macro-expansion chain outwards to
+/// the invocation site.
+fn span_line(span: &Value) -> Option<usize> {
+    let mut cur = span;
+    let mut found = None;
+    for _ in 0..64 {
+        if cur["file_name"] == "src/main.rs" {
+            found = cur["line_start"].as_u64().map(|l| l as usize);
+        }
+        let next = &cur["expansion"]["span"];
+        if next.is_object() {
+            cur = next;
+        } else {
+            break;
+        }
+    }
+    found
+}
+
+/// Attribute every error diagnostic to the shape whose module contains its (outermost) source line.
+/// None if some error cannot be attributed — the caller then falls back to compiling shape by shape.
+fn attribute(err: &BuildErr, lines: &[(usize, usize, usize)]) -> Option<BTreeMap<usize, String>> {
+    let mut out: BTreeMap<usize, String> = BTreeMap::new();
+    for m in &err.errors {
+        let text = m["message"].as_str().unwrap_or("");
+        let spans = m["spans"].as_array().cloned().unwrap_or_default();
+        if spans.is_empty() && text.starts_with("aborting due to") {
+            continue;
+        }
+        let line = spans.iter().filter(|s| s["is_primary"] == true).find_map(span_line).or_else(|| spans.iter().find_map(span_line))?;
+        let k = lines.partition_point(|&(_, _, last)| last < line);
+        let (id, first, _) = *lines.get(k)?;
+        if line < first {
+            return None; // outside every shape module
+        }
+        let code = m["code"]["code"].as_str().map(|c| format!("[{c}]")).unwrap_or_default();
+        out.entry(id).or_insert_with(|| format!("error{code}: {text}"));
+    }
+    if out.is_empty() {
+        None
+    } else {
+        Some(out)
+    }
+}
+
+impl Pkg {
+    fn new(sub: &str) -> Pkg {
+        Pkg { dir: gen_root().join(sub), name: format!("lambda_gen_{sub}") }
+    }
+    fn target(&self) -> PathBuf {
+        gen_root().join("target")
+    }
+    fn cargo(&self) -> Command {
+        let mut c = Command::new(std::env::var("CARGO_BIN").unwrap_or_else(|_| "cargo".into()));
+        c.current_dir(&self.dir)
+            .env("CARGO_TARGET_DIR", self.target())
+            .env("CARGO_NET_OFFLINE", "true")
+            .env_remove("RUSTFLAGS")
+            .env_remove("CARGO_ENCODED_RUSTFLAGS")
+            .env_remove("CARGO_BUILD_TARGET_DIR")
+            .stdin(Stdio::null());
+        c
+    }
+    fn write_if_changed(path: &Path, content: &str) {
+        if std::fs::read_to_string(path).ok().as_deref() == Some(content) {
+            return;
+        }
+        if let Some(d) = path.parent() {
+            let _ = std::fs::create_dir_all(d);
+        }
+        if let Err(e) = std::fs::write(path, content) {
+            machinery(&format!("cannot write {}: {e}", path.display()));
+        }
+    }
+    /// Write the package (Cargo.toml, .cargo/config.toml with the harness's offline setting, src/main.rs).
+    /// Returns the line range of every shape's module in src/main.rs.
+    fn write(&self, shapes: &[(usize, Shape)], thorough: bool, with_macro: bool) -> Vec<(usize, usize, usize)> {
+        Self::write_if_changed(&self.dir.join("Cargo.toml"), &gen::cargo_toml(&self.name, CRATE_PATH));
+        Self::write_if_changed(&self.dir.join(".cargo/config.toml"), "[net]\noffline = true\n");
+        let (src, lines) = gen::program_lines(shapes, thorough, with_macro);
+        Self::write_if_changed(&self.dir.join("src/main.rs"), &src);
+        lines
+    }
+    /// `cargo build --offline --release` (or `cargo check`, which stops before code generation);
+    /// Ok(binary path) or Err(the compiler's diagnostics).
+    fn build(&self, verb: &str) -> Result<PathBuf, BuildErr> {
+        let t = std::time::Instant::now();
+        let out = self.cargo().args([verb, "--offline", "--release", "--quiet", "--message-format=json"]).output();
+        phase(&format!("cargo {verb} {}", self.name), t);
+        let out = match out {
+            Ok(o) => o,
+            Err(e) => machinery(&format!("cannot run cargo: {e}")),
+        };
+        if out.status.success() {
+            let bin = self.target().join("release").join(&self.name);
+            if verb == "build" && !bin.exists() {
+                machinery(&format!("cargo succeeded but {} does not exist", bin.display()));
+            }
+            return Ok(bin);
+        }
+        let mut errors = vec![];
+        let mut rendered = String::new();
+        let mut foreign = false;
+        for line in String::from_utf8_lossy(&out.stdout).lines() {
+            let v: Value = match serde_json::from_str(line) {
+                Ok(v) => v,
+                Err(_) => continue,
+            };
+            if v["reason"] != "compiler-message" || v["message"]["level"] != "error" {
+                continue;
+            }
+            if v["target"]["name"] != self.name.as_str() {
+                foreign = true;
+            }
+            rendered += v["message"]["rendered"].as_str().unwrap_or("");
+            errors.push(v["message"].clone());
+        }
+        if errors.is_empty() {
+            // cargo itself failed (manifest, lock file, …): nothing to do with the macro
+            machinery(&format!("cargo {verb} failed without compiler diagnostics: {}", first_errors(&String::from_utf8_lossy(&out.stderr), 3)));
+        }
+        Err(BuildErr { errors, rendered, foreign })
+    }
+    /// Build only the crate under test and return the path of its rlib (for `rustc --extern`).
+    /// If the library itself does not build, no shape can be judged: machinery failure.
+    fn build_library(&self) -> PathBuf {
+        let out = self
+            .cargo()
+            .args(["build", "--offline", "--release", "-p", "rlib_lambda", "--message-format=json"])
+            .output()
+            .unwrap_or_else(|e| machinery(&format!("cannot run cargo: {e}")));
+        if !out.status.success() {
+            machinery(&format!(
+                "the crate under test ({CRATE_PATH}) does not build on its own, no macro shape can be judged: {}",
+                first_errors(&String::from_utf8_lossy(&out.stderr), 3)
+            ));
+        }
+        let mut rlib = None;
+        for line in String::from_utf8_lossy(&out.stdout).lines() {
+            if let Ok(v) = serde_json::from_str::<Value>(line) {
+                if v["reason"] == "compiler-artifact" && v["target"]["name"] == "rlib_lambda" {
+                    for f in v["filenames"].as_array().cloned().unwrap_or_default() {
+                        if let Some(p) = f.as_str() {
+                            if p.ends_with(".rlib") {
+                                rlib = Some(PathBuf::from(p));
+                            }
+                        }
+                    }
+                }
+            }
+        }
+        rlib.unwrap_or_else(|| machinery("cargo did not report the rlib of rlib_lambda"))
+    }
+}
+
+/// The `error…` lines of a compiler output (deterministic part: no timings, no progress lines).
+fn first_errors(stderr: &str, n: usize) -> String {
+    let v: Vec<&str> = stderr
+        .lines()
+        .map(|l| l.trim_end())
+        .filter(|l| l.starts_with("error") && !l.starts_with("error: could not compile") && !l.starts_with("error: aborting"))
+        .take(n)
+        .collect();
+    if v.is_empty() {
+        stderr.lines().filter(|l| !l.trim().is_empty()).take(n).collect::<Vec<_>>().join(" | ")
+    } else {
+        v.join(" | ")
+    }
+}
+
+#[derive(Clone, Debug)]
+struct ShapeOut {
+    mac: Vec<String>,
+    hand: Vec<String>,
+    calls_macro: u64,
+    calls_hand: u64,
+}
+
+struct RunOut {
+    results: BTreeMap<usize, ShapeOut>,
+    /// shapes during which the process died (stack overflow, abort), with the exit status text
+    crashed: Vec<(usize, String)>,
+}
+
+/// Run the generated binary; on a crash, attribute it to the announced shape and restart after it.
+fn run_binary(bin: &Path, ids: &[usize]) -> RunOut {
+    let mut results = BTreeMap::new();
+    let mut crashed = vec![];
+    let mut from = 0usize;
+    let last = ids.iter().copied().max().unwrap_or(0);
+    loop {
+        let mut child = Command::new(bin)
+            .arg(from.to_string())
+            .stdin(Stdio::null())
+            .stdout(Stdio::piped())
+            .stderr(Stdio::null())
+            .spawn()
+            .unwrap_or_else(|e| machinery(&format!("cannot run {}: {e}", bin.display())));
+        let mut text = String::new();
+        child.stdout.take().unwrap().read_to_string(&mut text).ok();
+        let status = child.wait().unwrap_or_else(|e| machinery(&format!("wait failed: {e}")));
+        let mut begun: Option<usize> = None;
+        let mut done = false;
+        for line in text.lines() {
+            let v: Value = match serde_json::from_str(line) {
+                Ok(v) => v,
+                Err(_) => continue, // a torn last line of a crashed process
+            };
+            if let Some(b) = v["begin"].as_u64() {
+                begun = Some(b as usize);
+            } else if v["done"] == true {
+                done = true;
+            } else if let Some(id) = v["id"].as_u64() {
+                let strs = |k: &str| -> Vec<String> {
+                    v[k].as_array().map(|a| a.iter().map(|x| x.as_str().unwrap_or("?").to_string()).collect()).unwrap_or_default()
+                };
+                results.insert(
+                    id as usize,
+                    ShapeOut {
+                        mac: strs("macro"),
+                        hand: strs("hand"),
+                        calls_macro: v["calls_macro"].as_u64().unwrap_or(0),
+                        calls_hand: v["calls_hand"].as_u64().unwrap_or(0),
+                    },
+                );
+                begun = None;
+            }
+        }
+        if done && status.success() {
+            break;
+        }
+        match begun {
+            Some(b) if !results.contains_key(&b) => {
+                crashed.push((b, format!("{status}")));
+                // every restart begins after the shape that died, so the loop ends after at most one run per shape
+                if b >= last {
+                    break;
+                }
+                from = b + 1;
+            }
+            _ => machinery(&format!("the generated binary ended abnormally ({status}) outside any shape")),
+        }
+    }
+    RunOut { results, crashed }
+}
+
+/// Compile every shape separately (metadata only) with `rustc --extern rlib_lambda=<rlib>`, in parallel.
+/// Returns the compiler's error lines for each shape that does not compile.
+fn check_each(pkg: &Pkg, shapes: &[(usize, Shape)], thorough: bool) -> BTreeMap<usize, String> {
+    let rlib = pkg.build_library();
+    let dir = pkg.dir.join("single");
+    let _ = std::fs::remove_dir_all(&dir);
+    if let Err(e) = std::fs::create_dir_all(&dir) {
+        machinery(&format!("cannot create {}: {e}", dir.display()));
+    }
+    let rustc = std::env::var("RUSTC_BIN").unwrap_or_else(|_| "rustc".into());
+    let compile = |file: &Path| -> Result<(), String> {
+        let out = Command::new(&rustc)
+            .current_dir(&dir)
+            .args(["--edition", "2021", "--crate-type", "bin", "--emit=metadata", "--extern"])
+            .arg(format!("rlib_lambda={}", rlib.display()))
+            .arg("--out-dir")
+            .arg(&dir)
+            .arg(file)
+            .stdin(Stdio::null())
+            .output()
+            .unwrap_or_else(|e| machinery(&format!("cannot run rustc: {e}")));
+        if out.status.success() {
+            Ok(())
+        } else {
+            Err(String::from_utf8_lossy(&out.stderr).to_string())
+        }
+    };
+    // control: a program with no shape at all must compile this way, otherwise the per-shape verdicts
+    // would be about the tool chain, not about the macro
+    let control = dir.join("control.rs");
+    Pkg::write_if_changed(&control, &gen::program(&[], thorough, true));
+    if let Err(e) = compile(&control) {
+        machinery(&format!("the control program (no macro invocation) does not compile with rustc --extern: {}", first_errors(&e, 3)));
+    }
+    let t = std::time::Instant::now();
+    let failures: Vec<(usize, String)> = shapes
+        .par_iter()
+        .filter_map(|(id, sh)| {
+            let file = dir.join(format!("shape_{id}.rs"));
+            Pkg::write_if_changed(&file, &gen::program(&[(*id, sh.clone())], thorough, true));
+            let err = compile(&file).err()?;
+            Some((*id, first_errors(&err, 2)))
+        })
+        .collect();
+    phase("per-shape rustc", t);
+    failures.into_iter().collect()
+}
+
+/// First argument tuple on which the two versions differ.
+fn first_difference(sh: &Shape, out: &ShapeOut, grid: &[Tuple]) -> Option<(usize, String)> {
+    if out.mac.len() != grid.len() || out.hand.len() != grid.len() {
+        machinery(&format!("shape {} produced {} / {} results for {} tuples", sh.descriptor(), out.mac.len(), out.hand.len(), grid.len()));
+    }
+    for i in 0..grid.len() {
+        if out.hand[i] == "PANIC" {
+            machinery(&format!("the hand-written reference of {} panicked on {}", sh.descriptor(), gen::tuple_text(&grid[i], sh.nargs)));
+        }
+        if out.mac[i] != out.hand[i] {
+            return Some((
+                i,
+                format!(
+                    "shape {} on arguments {} (called twice: with these, then with the first argument decreased by 1): rec_lambda version gave (r1, r2, captures…) = {} but the hand-written recursive fn gave {}",
+                    sh.descriptor(),
+                    gen::tuple_text(&grid[i], sh.nargs),
+                    out.mac[i],
+                    out.hand[i]
+                ),
+            ));
+        }
+    }
+    None
+}
+
+/// Plain re-execution of ONE shape: generate a package with just that shape, compile, run, compare.
+fn confirm(v: &Value) -> Result<(), String> {
+    let sh: Shape = serde_json::from_value(v["shape"].clone()).map_err(|e| format!("bad replay: {e}")).unwrap_or_else(|e| machinery(&e));
+    let thorough = v["grid"] == "thorough";
+    let pkg = Pkg::new("replay");
+    pkg.write(&[(0, sh.clone())], thorough, true);
+    let bin = match pkg.build("build") {
+        Ok(b) => b,
+        Err(err) => {
+            if err.foreign {
+                pkg.build_library(); // exits 2: the library itself is what does not build
+            }
+            // the same program without the macro invocation must build, else the generator is at fault
+            let ctl = Pkg::new("replay_control");
+            ctl.write(&[(0, sh.clone())], thorough, false);
+            if let Err(e) = ctl.build("check") {
+                machinery(&format!("generator defect: the hand-written version of {} does not compile: {}", sh.descriptor(), first_errors(&e.rendered, 2)));
+            }
+            return Err(format!("shape {} does not compile against the macro: {}", sh.descriptor(), first_errors(&err.rendered, 2)));
+        }
+    };
+    let out = run_binary(&bin, &[0]);
+    if let Some((_, status)) = out.crashed.first() {
+        return Err(format!("shape {}: the process running the rec_lambda version died ({status}) — unbounded recursion or abort", sh.descriptor()));
+    }
+    let grid = gen::grid(thorough, sh.nargs);
+    let o = out.results.get(&0).unwrap_or_else(|| machinery("replay binary printed no result"));
+    match first_difference(&sh, o, &grid) {
+        Some((_, msg)) => Err(msg),
+        None => Ok(()),
+    }
+}
+
+fn main() {
+    let args = Args::parse();
+    quiet_panics();
+    if args.replay.is_some() {
+        Run::replay_main(&args, &confirm);
+    }
+    let mut run = Run::new(&args, "lambda", "exploration");
+    let thorough = args.tier == Tier::Thorough;
+    let bodies: Vec<char> = args.tier.pick(vec!['A'], vec!['A', 'B', 'C']);
+    let shapes: Vec<(usize, Shape)> = gen::enumerate(&bodies).into_iter().enumerate().collect();
+    let expected_programs = 31 * 4 * 2 * 2 * bodies.len();
+    if shapes.len() != expected_programs {
+        run.machinery_failure(&format!("enumerated {} shapes, expected {expected_programs}", shapes.len()));
+    }
+    let patterns: BTreeSet<Vec<bool>> = shapes.iter().map(|(_, s)| s.caps.clone()).collect();
+    if patterns.len() != 31 {
+        run.machinery_failure("the 31 capture patterns were not all enumerated");
+    }
+
+    let pkg = Pkg::new(args.tier.name());
+    let tier_name = args.tier.name();
+    let replay_of = |sh: &Shape, family: &str| json!({"family": family, "shape": sh, "grid": tier_name, "descriptor": sh.descriptor()});
+
+    // ---- compile the whole batch; on failure name the offending shapes ----
+    // The compiler's diagnostics (followed through the macro-expansion chain to the invocation site) name
+    // the failing shapes; those are removed and the rest is compiled again, until the batch builds (later
+    // compiler phases only run once the earlier ones are clean, so this can take a few rounds).  If some
+    // diagnostic cannot be attributed, every remaining shape is compiled on its own with rustc --extern.
+    let t0 = std::time::Instant::now();
+    let mut compile_failures: BTreeMap<usize, String> = BTreeMap::new();
+    let mut remaining: Vec<(usize, Shape)> = shapes.clone();
+    let mut rounds = 0u64;
+    let mut attribution = "none needed (the batch compiled)";
+    let bin = loop {
+        let lines = pkg.write(&remaining, thorough, true);
+        rounds += 1;
+        let err = match pkg.build("build") {
+            Ok(b) => break b,
+            Err(e) => e,
+        };
+        if err.foreign {
+            pkg.build_library(); // exits 2: the library itself does not build
+        }
+        // VERIF_LAMBDA_PER_SHAPE forces the fallback (used to test it); both routes name the same shapes
+        let force = std::env::var_os("VERIF_LAMBDA_PER_SHAPE").is_some();
+        let found = if rounds <= 8 && !force { attribute(&err, &lines) } else { None };
+        let found = match found {
+            Some(f) => {
+                attribution = "compiler diagnostics of the batch, traced to the invocation site";
+                f
+            }
+            None => {
+                attribution = "every shape compiled on its own with rustc --extern";
+                let f = check_each(&pkg, &remaining, thorough);
+                if f.is_empty() {
+                    run.machinery_failure(&format!(
+                        "the batch of {} shapes does not compile but every shape compiles on its own: {}",
+                        remaining.len(),
+                        first_errors(&err.rendered, 3)
+                    ));
+                }
+                f
+            }
+        };
+        remaining.retain(|(id, _)| !found.contains_key(id));
+        compile_failures.extend(found);
+        if remaining.is_empty() {
+            // nothing compiles: still build the (empty) driver so that the run phase is uniform
+            continue;
+        }
+    };
+    if !compile_failures.is_empty() {
+        // the same shapes WITHOUT the macro invocation must compile, otherwise the generator is at fault
+        // and no verdict may be given
+        let failing: Vec<(usize, Shape)> = shapes.iter().filter(|(id, _)| compile_failures.contains_key(id)).cloned().collect();
+        let ctl = Pkg::new(&format!("{}_control", args.tier.name()));
+        ctl.write(&failing, thorough, false);
+        if let Err(e) = ctl.build("check") {
+            run.machinery_failure(&format!(
+                "generator defect: the hand-written versions of the shapes that fail to compile do not compile either: {}",
+                first_errors(&e.rendered, 3)
+            ));
+        }
+    }
+    run.cov("compile_rounds", rounds);
+    run.cov("compile_failure_attribution", attribution);
+    run.cov("batch_compile_wall_s", (t0.elapsed().as_secs_f64() * 10.0).round() / 10.0);
+    if let Some((id, err)) = compile_failures.iter().next() {
+        let sh = &shapes[*id].1;
+        run.violation(Violation::new(
+            format!("compile:{}", sh.descriptor()),
+            format!(
+                "shape {} does not compile against the macro ({} of {} shapes fail to compile; this is the first in enumeration order): {}",
+                sh.descriptor(),
+                compile_failures.len(),
+                shapes.len(),
+                err
+            ),
+            replay_of(sh, "compile"),
+        ));
+    }
+    run.cov("shapes_failing_to_compile", compile_failures.len() as u64);
+    if !compile_failures.is_empty() {
+        let list: Vec<String> = compile_failures.keys().take(12).map(|id| shapes[*id].1.descriptor()).collect();
+        run.cov("first_shapes_failing_to_compile", json!(list));
+    }
+
+    // ---- run, compare ----
+    let compiled: Vec<usize> = shapes.iter().map(|(id, _)| *id).filter(|id| !compile_failures.contains_key(id)).collect();
+    let out = run_binary(&bin, &compiled);
+    let grids: Vec<Vec<Tuple>> = (0..=4).map(|n| if n == 0 { vec![] } else { gen::grid(thorough, n) }).collect();
+    let mut evaluations = 0u64;
+    let mut nontrivial = 0u64;
+    let mut trivial_by_rule = 0u64;
+    let mut distinct_outcomes: BTreeSet<u64> = BTreeSet::new();
+    let mut calls_macro = 0u64;
+    let mut calls_hand = 0u64;
+    let mut trivial_call_mismatch = 0u64;
+    let mut behaviour_failures = 0u64;
+    let mut first_behaviour: Option<Violation> = None;
+    let mut per_ncaps = [0u64; 5];
+    let mut longest_log = 0usize;
+    for &id in &compiled {
+        let sh = &shapes[id].1;
+        let grid = &grids[sh.nargs];
+        if let Some((_, status)) = out.crashed.iter().find(|(c, _)| *c == id) {
+            behaviour_failures += 1;
+            if first_behaviour.is_none() {
+                first_behaviour = Some(Violation::new(
+                    format!("behaviour:{}@crash", sh.descriptor()),
+                    format!("shape {}: the process died ({status}) while running it — unbounded recursion or abort", sh.descriptor()),
+                    replay_of(sh, "behaviour"),
+                ));
+            }
+            continue;
+        }
+        let o = match out.results.get(&id) {
+            Some(o) => o,
+            None => run.machinery_failure(&format!("no result line for shape {id} ({})", sh.descriptor())),
+        };
+        evaluations += grid.len() as u64;
+        per_ncaps[sh.caps.len()] += 1;
+        calls_macro += o.calls_macro;
+        calls_hand += o.calls_hand;
+        // recursion must really have happened in the reference: more body executions than top-level calls
+        if o.calls_hand <= 2 * grid.len() as u64 {
+            run.machinery_failure(&format!("shape {} never recursed in the hand-written version", sh.descriptor()));
+        }
+        let distinct: BTreeSet<&String> = o.hand.iter().collect();
+        for s in &o.mac {
+            distinct_outcomes.insert(fnv(s.as_bytes()));
+            longest_log = longest_log.max(s.matches(',').count());
+        }
+        let observable = distinct.len() >= 2;
+        if observable {
+            nontrivial += 1;
+        }
+        if sh.trivially_observable() {
+            trivial_by_rule += 1;
+            if o.calls_macro != o.calls_hand {
+                trivial_call_mismatch += 1;
+            }
+        }
+        // the measured notion (results vary with the arguments) must coincide with the syntactic one
+        if observable == sh.trivially_observable() {
+            run.machinery_failure(&format!(
+                "shape {}: hand-written version shows {} distinct results over the grid, but the shape {} a return value or mutable capture",
+                sh.descriptor(),
+                distinct.len(),
+                if sh.trivially_observable() { "has no" } else { "has" }
+            ));
+        }
+        if let Some((i, msg)) = first_difference(sh, o, grid) {
+            behaviour_failures += 1;
+            if first_behaviour.is_none() {
+                first_behaviour = Some(Violation::new(
+                    format!("behaviour:{}@args={}", sh.descriptor(), gen::tuple_text(&grid[i], sh.nargs)),
+                    msg,
+                    replay_of(sh, "behaviour"),
+                ));
+            }
+        }
+    }
+    if let Some(v) = first_behaviour {
+        run.violation(v);
+    }
+
+    run.cov("programs", shapes.len() as u64);
+    run.cov("programs_compiled_and_run", compiled.len() as u64);
+    run.cov("evaluations", evaluations);
+    run.cov("distinct_nontrivial", nontrivial);
+    run.cov("trivially_observable_shapes", trivial_by_rule);
+    run.cov("shapes_with_differing_results", behaviour_failures);
+    run.cov("distinct_result_strings", distinct_outcomes.len() as u64);
+    run.cov("body_executions_macro_version", calls_macro);
+    run.cov("body_executions_hand_version", calls_hand);
+    run.cov("call_count_mismatches_in_trivially_observable_shapes", trivial_call_mismatch);
+    run.cov("shapes_run_by_capture_count_0_to_4", json!(per_ncaps.to_vec()));
+    run.cov("capture_patterns", patterns.len() as u64);
+    run.cov("body_templates", json!(bodies.iter().map(|c| c.to_string()).collect::<Vec<_>>()));
+    run.cov("argument_tuples_per_arity_1_to_4", json!(grids[1..].iter().map(|g| g.len()).collect::<Vec<_>>()));
+    run.cov("exhaustive", true);
+    run.cov("crate_under_test", CRATE_PATH);
+    run.cov(
+        "rule",
+        "every shape = (capture sequence of length 0..=4 over {&,&mut}, 1..=4 arguments, return type i64/none, recursive calls plain/trailing comma, body template) is emitted as a rec_lambda! invocation and as a hand-written recursive fn with the same body, compiled in one batch against the real macro and run on every argument tuple of a fixed grid (closure created once, called twice); an evaluation = one (shape, tuple) comparison of (r1, r2, every capture). A shape is non-trivial when the reference's results differ between at least two tuples of the grid (measured); shapes with neither return value nor mutable capture show only termination and are excluded",
+    );
+    run.assume("a shape's compile verdict is the verdict of cargo/rustc of the installed tool chain on the generated program; the generated package is built with opt-level 0");
+
+    // non-vacuity
+    if compile_failures.is_empty() && behaviour_failures == 0 {
+        if nontrivial + trivial_by_rule != shapes.len() as u64 || nontrivial < 2 {
+            run.machinery_failure("non-trivial + trivially-observable shapes do not add up to the number of programs");
+        }
+        if calls_macro != calls_hand {
+            run.machinery_failure("all results agree but the two versions executed the body a different number of times");
+        }
+        if per_ncaps.iter().any(|&c| c == 0) || longest_log < 20 {
+            run.machinery_failure("some capture count was never run, or no mutable log ever grew");
+        }
+    }
+
+    // samples: three macro invocations written out, with one observed result each
+    let n = shapes.len();
+    let picks = [
+        (args.seed as usize * 7 + n / 3 + 5) % n,
+        (args.seed as usize * 13 + (2 * n) / 3 + 2) % n,
+        (args.seed as usize * 29 + n - 3) % n,
+    ];
+    for &i in &picks {
+        let sh = &shapes[i].1;
+        let grid = &grids[sh.nargs];
+        let obs = out.results.get(&i).map(|o| {
+            // a small tuple (first argument 2), so that the logs written out stay short
+            let k = grid.iter().position(|t| t.0 == 2).unwrap_or(0);
+            json!({"arguments": gen::tuple_text(&grid[k], sh.nargs), "macro_version": o.mac[k], "hand_version": o.hand[k]})
+        });
+        run.sample(json!({
+            "shape": sh.descriptor(),
+            "invocation": format!("let mut lam = {};", gen::macro_invocation(sh, "")),
+            "reference": gen::hand_fn(sh, "hand", ""),
+            "observed_(r1,r2,captures…)": obs,
+        }));
+    }
+    run.finish(&confirm)
+}
